@@ -23,6 +23,27 @@ Theorem C19_no_spurious_errors_partial :
 Proof. intros. rewrite src_working_set_is_thread_local. apply no_thread_fails. Qed.
 Print Assumptions C19_no_spurious_errors_partial.
 
+(* "... return exactly what the same calls return when executed sequentially", at the model's level of observation (which requests
+   completed, in which order): for EVERY number of threads, class graph, request lists and schedule, every thread's completed
+   requests followed by its pending ones are exactly its own request list -- nothing skipped, nothing done twice, nothing out of
+   order, whatever the other threads did to the shared cache meanwhile -- and no thread has failed; so a thread with nothing left
+   to do has completed exactly the requests the sequential execution completes.
+   (What a completed request RETURNS is the hook of the class; hooks generated under different schedules differ in which nested
+   positions are late-bound, and late-bound positions behave like directly bound ones since /repo 3399ab1 -- finding F34, decided
+   by the RECWARM schedules, open for TypedDicts as F35.) *)
+Theorem C19_completed_requests_are_sequential :
+  forall (fields : cls -> list (cls * bool)) (reqs : list (list cls)) (sched : list nat),
+    Forall2 (fun t r => failed t = false /\ finished t ++ todo t = r) (threads (run fields src_thread_local (init reqs) sched)) reqs.
+Proof. intros. rewrite src_working_set_is_thread_local. apply finished_is_a_prefix. Qed.
+Print Assumptions C19_completed_requests_are_sequential.
+
+Corollary C19_idle_thread_completed_its_requests :
+  forall (fields : cls -> list (cls * bool)) (reqs : list (list cls)) (sched : list nat) (i : nat) (t : thread) (r : list cls),
+    nth_error (threads (run fields src_thread_local (init reqs) sched)) i = Some t -> nth_error reqs i = Some r ->
+    todo t = [] -> failed t = false /\ finished t = r.
+Proof. intros fields reqs sched i t r. rewrite src_working_set_is_thread_local. apply idle_thread_completed_its_requests. Qed.
+Print Assumptions C19_idle_thread_completed_its_requests.
+
 (* the model CAN exhibit the failure: with one working set shared by all threads, a second thread
    that first-uses class 1 while the first thread is still generating its hook gets a RecursionError *)
 Local Open Scope N_scope.
